@@ -218,6 +218,10 @@ impl Env {
         }
     }
     pub fn cleanup(&self) {
+        if std::env::var_os("DELTASIM_KEEP").is_some() {
+            eprintln!("DELTASIM_KEEP: run directories left in {}", self.scratch.display());
+            return;
+        }
         let _ = fs::remove_dir_all(&self.scratch);
     }
 }
@@ -493,7 +497,7 @@ pub fn run(env: &Env, spec: &RunSpec, dir: &Path, keep: bool) -> std::io::Result
             eprintln!("SLOW {}ms args={:?} pager={:?} plan={:?} timed_out={} pager_finished={}", res.wall_ms, spec.args, spec.pager.as_ref().map(|p| p.mode.clone()), spec.plan, timed_out, res.pager_finished);
         }
     }
-    if !keep {
+    if !keep && std::env::var_os("DELTASIM_KEEP").is_none() {
         let _ = fs::remove_dir_all(dir);
     }
     Ok(res)
